@@ -60,11 +60,11 @@ Proof. intro H. unfold gf_mul. apply gf_mul_loop_lt; [reflexivity | exact H]. Qe
 Global Opaque gf_mul.
 
 (* ---- linearity of GHASH in the blocks ---- *)
-Fixpoint gh (h y : N) (xs : list N) : N :=
-  match xs with [] => y | x :: r => gh h (gf_mul (N.lxor y x) h) r end.
-Lemma fold_gh h xs : forall y, fold_left (fun y x => gf_mul (N.lxor y x) h) xs y = gh h y xs.
-Proof. induction xs as [|x xs IH]; intro y; [reflexivity|]. cbn [fold_left gh]. apply IH. Qed.
-Lemma ghash_gh h xs : ghash h xs = gh h 0 xs. Proof. unfold ghash. apply fold_gh. Qed.
+Definition gstep (h y x : N) : N := gf_mul (N.lxor y x) h.
+Definition gh (h y : N) (xs : list N) : N := fold_left (gstep h) xs y.
+Lemma gh_nil h y : gh h y [] = y. Proof. reflexivity. Qed.
+Lemma gh_cons h y x xs : gh h y (x :: xs) = gh h (gf_mul (N.lxor y x) h) xs. Proof. reflexivity. Qed.
+Lemma ghash_gh h xs : ghash h xs = gh h 0 xs. Proof. reflexivity. Qed.
 
 Fixpoint zipx (xs ys : list N) : list N :=
   match xs, ys with
@@ -76,7 +76,7 @@ Lemma gh_linear h : forall xs ys y1 y2, length xs = length ys ->
   gh h (N.lxor y1 y2) (zipx xs ys) = N.lxor (gh h y1 xs) (gh h y2 ys).
 Proof.
   induction xs as [|x xs IH]; intros [|y ys] y1 y2 L; try discriminate; [reflexivity|].
-  cbn [zipx gh].
+  cbn [zipx]. rewrite !gh_cons.
   replace (N.lxor (N.lxor y1 y2) (N.lxor x y)) with (N.lxor (N.lxor y1 x) (N.lxor y2 y)) by xor_ring.
   rewrite gf_mul_linear. apply IH. now injection L.
 Qed.
@@ -100,7 +100,7 @@ Qed.
 Lemma gh_lt h xs : forall y, h < B128 -> y < B128 -> gh h y xs < B128.
 Proof.
   induction xs as [|x xs IH]; intros y Hh Hy; [exact Hy|].
-  cbn [gh]. apply (IH _ Hh). now apply gf_mul_lt.
+  rewrite gh_cons. apply (IH _ Hh). now apply gf_mul_lt.
 Qed.
 
 Lemma ghash_lt h xs : h < B128 -> ghash h xs < B128.
@@ -112,7 +112,7 @@ Lemma blocks128_length f : forall a b : list byte, length a = length b ->
 Proof.
   induction f as [|f IH]; intros a b L; [reflexivity|].
   cbn [blocks128]. destruct a as [|x a], b as [|y b]; try discriminate; [reflexivity|].
-  cbn [length]. f_equal. apply IH. rewrite !skipn_length. cbn [length]. lia.
+  cbn [length]. f_equal. apply IH. rewrite !skipn_length. cbn [length] in *. lia.
 Qed.
 
 Section GCM.
